@@ -51,6 +51,7 @@ MonInit ==
     idle |-> 0,            \* consecutive progress-free, non-blocking iterations
     cbSince |-> FALSE,     \* a callback ran since the last wait entry
     lastWR |-> <<0, 0>>,   \* clock when the last wait returned (the library must know at least that much)
+    inval |-> <<0, 0>>,    \* clock when the program last told the library that time has passed (iv_invalidate_now)
     prevW |-> <<FALSE, <<0, 0>>, 0>>,   \* previous wait entry of this iv_main: <<valid, clock, registration seq>>
     ctx |-> "loop",        \* kind of the last callback / API object
     fatal |-> "",
@@ -123,6 +124,7 @@ ApiStep(m0, e) ==
     [] e.op = "quit" -> IF m.inMain /\ e.t = 0 THEN [m EXCEPT !.quit = TRUE] ELSE m
     [] e.op \in {"pool_create", "submit", "submit_cont", "thr_create", "sig_reg", "wait_reg", "wait_spawn", "popen", "ino_reg"} ->
          [m EXCEPT !.opaque = TRUE]
+    [] e.op = "invalidate" -> [m EXCEPT !.inval = e.ts]
     [] OTHER -> m
 
 -----------------------------------------------------------------------------
@@ -218,7 +220,10 @@ WaitEnter(m0, e) ==
       (* the loop measures its timeout from the clock it knows: the last value it read, at least the
          moment the last wait returned.  Time that passes inside callbacks without the program saying so
          (iv_invalidate_now) is the program's business, time that passes in a wait is the library's *)
-      known == IF TsLt(e.now, TsMax(m3.libNow, m3.lastWR)) THEN e.now ELSE TsMax(m3.libNow, m3.lastWR)
+      (* ... unless the program said so: after iv_invalidate_now every clock value the library uses is a
+         fresh reading, so the moment of that call is known to it as well *)
+      kn0 == TsMax(TsMax(m3.libNow, m3.lastWR), m3.inval)
+      known == IF TsLt(e.now, kn0) THEN e.now ELSE kn0
       aK == IF IsNone(e.to) THEN None ELSE TsAdd(known, e.to)
       effK == IF IsNone(aK) THEN e.tfd ELSE IF IsNone(e.tfd) THEN aK ELSE IF TsLt(e.tfd, aK) THEN e.tfd ELSE aK
       m4 == Chk(m3, hasT, ~IsNone(effK) /\ TsLeq(effK, TsAdd(TsMax(known, mx), slack)), "C04:oversleep")
